@@ -673,7 +673,7 @@ def run(ctx):
     rep.rule = ("cases = directive strings from a grammar-based generator (targets with :: paths and shared prefixes a/ab/a::b/app/application, "
                 "levels by name in any case or digit, bare level / bare target, field-name lists, span names, value matchers, duplicates and "
                 "conflicting entries shuffled) + a malformed stream (fixed list + 1-3 character mutations), each evaluated on a pool of "
-                "hand-built metadata; span histories through the real macros on 1-3 threads.  non-trivial = a (string, metadata) pair where "
+                "hand-built metadata, in the default build and again in a build of `tracing` with the compile-time cap max_level_info (filters must not depend on it); span histories through the real macros on 1-3 threads.  non-trivial = a (string, metadata) pair where "
                 ">= 2 surviving directives with targets in prefix relation both match the metadata, or a history op decided by an entered "
                 "span's directive; distinct = distinct (string, metadata) / (string, history, op index)")
     rep.trusted_base = [
@@ -705,6 +705,18 @@ def run(ctx):
             rep.tie("build:h_directive" + ("-release" if rel else ""), False, vlib.last_error(log))
             return rep
         bins["release" if rel else "debug"] = paths["h_directive"]
+    # the same harness against `tracing` with the compile-time cap max_level_info: filters must not depend on the cap
+    ok, paths, log = cargo_build(ctx, "directive_static", ["h_directive_static"], release=False)
+    if not ok:
+        rep.tie("build:h_directive_static", False, vlib.last_error(log))
+        return rep
+    static_bin = paths["h_directive_static"]
+    rc, out = run_harness(static_bin, [{"k": "static_max"}])
+    cap = out[0].get("level") if (rc == 0 and out) else None
+    rep.tie("build:h_directive_static has STATIC_MAX_LEVEL = INFO", cap == 3, "STATIC_MAX_LEVEL code %r (3 = info)" % (cap,), None if cap == 3 else {"cap": cap})
+    rc, out = run_harness(bins["debug"], [{"k": "static_max"}])
+    cap0 = out[0].get("level") if (rc == 0 and out) else None
+    rep.tie("build:h_directive has no static cap", cap0 == 5, "STATIC_MAX_LEVEL code %r (5 = trace)" % (cap0,), None if cap0 == 5 else {"cap": cap0})
     rc, out = run_harness(bins["debug"], [{"k": "pools"}])
     if rc != 0 or not out:
         rep.tie("run:h_directive", False, "pools rc=%d" % rc)
@@ -804,6 +816,18 @@ def run(ctx):
             rep.tie("run:h_directive:" + prof, False, "no output for %d cases" % len(missing), {"ids": missing[:5]})
             return rep
 
+    # static-cap build: the probing cases only (the macro callsites of the history cases are what the cap removes)
+    slines = [l for l in lines if l.get("k") != "hist"]
+    rc, out = run_harness(static_bin, slines)
+    if rc != 0:
+        rep.tie("run:h_directive_static", False, "rc=%d" % rc)
+        return rep
+    impl["static-info"] = {r["id"]: r for r in out if "id" in r and r.get("k") != "pool"}
+    missing = [l["id"] for l in slines if "id" in l and l["id"] not in impl["static-info"]]
+    if missing:
+        rep.tie("run:h_directive_static", False, "no output for %d cases" % len(missing), {"ids": missing[:5]})
+        return rep
+
     # ---- model evaluation
     model = None
     try:
@@ -878,10 +902,16 @@ def run(ctx):
         def dis(c, what, iv, mv):
             disagree.append({"case": {k: c[k] for k in c if k in ("k", "s", "entries", "regex", "lossy", "cfg", "ops")}, "what": what, "impl": iv, "model": mv})
 
+        dbg_build = prof in ("debug", "static-info")      # debug assertions on
         for c in cases:
-            r = impl[prof][c["id"]]
             k = c["k"]
-            rep.count("case:" + k + (":malformed" if c.get("malformed") else ""))
+            if prof == "static-info" and k == "hist":
+                continue
+            r = impl[prof][c["id"]]
+            if prof == "static-info":
+                rep.count("case:static-cap-build:" + k)
+            else:
+                rep.count("case:" + k + (":malformed" if c.get("malformed") else ""))
             if k in ("targets", "tapi"):
                 check_targets(rep, c, r, pool_metas, pool_targets, prof, fixed_f21)
                 if model is not None:
@@ -908,7 +938,7 @@ def run(ctx):
             elif k == "env":
                 if model is not None:
                     mp = model.get(("panic", c["id"]))
-                    want_panic = (mp == 1 and prof == "debug")
+                    want_panic = (mp == 1 and dbg_build)
                     if mp in (0, 1) and bool(r.get("panic")) != want_panic:
                         dis(c, "panic while building the filter (debug assertion in Directive::cmp)", bool(r.get("panic")), want_panic)
                 if r.get("panic"):
@@ -916,7 +946,7 @@ def run(ctx):
                     # F22's shape: two directives with the same target, span and field matchers, one a Debug literal.  For a string
                     # without a generator structure the model's parse decides (run_env_panics = the assertion fires on such a pair)
                     model_dup = model is not None and model.get(("panic", c["id"])) == 1
-                    f22 = (not fixed_f22) and (not c["regex"]) and prof == "debug" and (dup or (c.get("malformed") and (model_dup or dup_lit_text(c["s"]))))
+                    f22 = (not fixed_f22) and (not c["regex"]) and dbg_build and (dup or (c.get("malformed") and (model_dup or dup_lit_text(c["s"]))))
                     rep.violation("EnvFilter parse of %r (regex=%s) panicked [%s build]" % (c["s"], c["regex"], prof),
                                   {"case": strip_case(c), "profile": prof}, finding="F22" if f22 else None)
                     continue
